@@ -75,8 +75,11 @@ func (fs *FS) notExistOrNotDir(name string, err error) error {
 		switch {
 		case parentErr == nil && !parent.Mode().IsDir():
 			return hackpadfs.ErrNotDir
-		case parentErr == nil, !errors.Is(parentErr, hackpadfs.ErrNotExist):
+		case parentErr == nil:
 			return err
+		case !errors.Is(parentErr, hackpadfs.ErrNotExist):
+			// can't tell. don't claim it does not exist
+			return parentErr
 		}
 	}
 	return err
